@@ -83,7 +83,14 @@ def r_registry(run, tree):
     check_registry(run, tree)
 
 
-RULES = [r_registry, r1_operator_table, r2_convert_before_combine, r3_unit_derivation, r4_dtype_gate, r5_to, r6_helpers, r7_end_to_end, r8_histories]
+def r_masked(run, tree):
+    from . import array_folds as af
+    run.rule("C02.R10", "an Array holding a numpy masked array keeps the mask through construction, copy(), to(), indexing, .values and the numpy dispatch "
+             "(numpy.asarray / numpy.array on the way hand the hidden entries back as ordinary values)", "D7 fold of the Array class over a masked buffer token", "", floor=6)
+    af.check_masked_buffers(run, tree)
+
+
+RULES = [r_masked, r_registry, r1_operator_table, r2_convert_before_combine, r3_unit_derivation, r4_dtype_gate, r5_to, r6_helpers, r7_end_to_end, r8_histories]
 
 
 def t_pair_space(run, tree):
